@@ -420,15 +420,20 @@ impl FileSpec {
             .filter(|path| {
                 // infix filter must pass
                 let stem = path.file_stem().unwrap(/* CANNOT FAIL*/).to_string_lossy();
-                let infix_start = if fixed_name_part.is_empty() {
-                    0
-                } else {
-                    fixed_name_part.len() + 1 // underscore at the end
+                // the infix follows the fixed name part and an underscore
+                let o_maybe_infix = stem.strip_prefix(&fixed_name_part).and_then(|s| {
+                    if fixed_name_part.is_empty() {
+                        Some(s)
+                    } else {
+                        s.strip_prefix('_')
+                    }
+                });
+                let Some(maybe_infix) = o_maybe_infix else {
+                    return false;
                 };
-                if stem.len() <= infix_start {
+                if maybe_infix.is_empty() {
                     return false;
                 }
-                let maybe_infix = &stem[infix_start..];
                 let end = maybe_infix.find('.').unwrap_or(maybe_infix.len());
                 infix_filter.filter_infix(&maybe_infix[..end])
             })
